@@ -82,6 +82,13 @@ Chain3P(u) ==
      sp \in StepSeqsS, sc \in StepSeqsS \cup {<<5>>}, op \in {0, 1}, ip \in BOOLEAN,
      c1 \in ChainsUpTo1(Atoms), c2 \in ChainsUpTo1(PullAtoms), ord \in Perms3}
 
+(* chain3d: P -> M through two delay adapters, M -> C with C of larger step (M is dragged ahead) *)
+Chain3D(u) ==
+  {MkCfg(<<TimeC(sp, 0, FALSE, <<>>), TimeC(sm, 0, FALSE, <<Lk(1, <<a, b>>)>>), TimeC(sc, 0, FALSE, <<Lk(2, <<>>)>>)>>,
+         ord, 8, "dag", "chain3d") :
+     sp \in {<<1>>, <<2>>}, sm \in {<<1>>, <<2>>}, sc \in {<<3>>, <<5>>},
+     a \in {Fix(1), Fix(2), ToPull(1, 0), ToPull(2, 1)}, b \in {Fix(1), Fix(3), ToPull(1, 0), ToPull(2, 0)}, ord \in Perms3}
+
 (* fan-in: two producers into one consumer, or one producer through two    *)
 (* different chains into two inputs of one consumer                        *)
 FanIn2(u) ==
@@ -261,7 +268,9 @@ RingBreak(u) ==
   {MkCfg(<<TimeC(sa, 0, FALSE, <<Lk(2, ca)>>), TimeC(sb, ob, FALSE, <<Lk(1, cb)>>)>>,
          ord, 7, "partial", "ringbreak") :
      sa \in StepSeqsS, sb \in StepSeqsS, ob \in {0, 1}, ord \in Perms2,
-     ca \in {<<ToPush>>, <<ToPull(1, 0)>>, <<ToPull(2, 0)>>, <<ToPull(1, 2)>>, <<Pass, ToPush>>, <<ToPush, Fix(1)>>},
+     ca \in {<<ToPush>>, <<ToPull(1, 0)>>, <<ToPull(2, 0)>>, <<ToPull(1, 2)>>, <<Pass, ToPush>>, <<ToPush, Fix(1)>>,
+             \* a dependency breaker upstream of a push-based adapter breaks nothing; downstream it does
+             <<Buf("linear"), ToPush>>, <<Buf("next"), ToPush>>, <<ToPush, Buf("linear")>>},
      cb \in {<<>>, <<Pass>>, <<Fix(1)>>}}
 
 ---------------------------------------------------------------------------
@@ -272,6 +281,7 @@ CfgSpace(f) ==
     [] f = "pair3"      -> Pair3(0)
     [] f = "chain3t"    -> Chain3T(0)
     [] f = "chain3p"    -> Chain3P(0)
+    [] f = "chain3d"    -> Chain3D(0)
     [] f = "fanin2"     -> FanIn2(0)
     [] f = "fanin1"     -> FanIn1(0)
     [] f = "fanout"     -> FanOut(0)
@@ -297,6 +307,6 @@ CfgSpace(f) ==
 
 AllFamilies == {"pair", "pairL", "pairXL", "pair3", "chain3t", "chain3p", "fanin2", "fanin1",
                 "fanout", "pullfanout", "diamondt", "diamondp", "pullchain2", "ring2", "ring3",
-                "ring4", "pullring", "pullringtail", "ringbreak", "wsum", "pulltwice", "ring2tail", "fanoutshared", "repeatinteg", "sinkfan", "lateidle", "ringfanin", "fanout3shared"}
+                "ring4", "pullring", "pullringtail", "ringbreak", "wsum", "pulltwice", "ring2tail", "fanoutshared", "repeatinteg", "sinkfan", "lateidle", "ringfanin", "fanout3shared", "chain3d"}
 
 =============================================================================
